@@ -238,6 +238,32 @@ def check_copy(acc: core.Acc, case: dict, label: str, orig, make_copy) -> None:
         return
     r_orig = reachable(orig)
     r_copy = reachable(cp)
+    # which map do the parts of the copy belong to?  A copy made into another map lives there entirely (its IDs are that
+    # map's); a copy made within a map never re-uses an ID of its source (IDs are "freshly assigned").
+    src_map = getattr(orig, 'map', None) or getattr(orig, 'vmf', None)
+    if src_map is not None and not label.endswith((':deepcopy', ':pickle', ':copy.copy')):
+        cross = label.endswith('->other')
+        for _, (path, o) in r_copy.items():
+            owner = getattr(o, 'map', None) if hasattr(o, 'map') else getattr(o, 'vmf', None)
+            if isinstance(owner, VMF) and ((owner is src_map) == cross):
+                acc.fail('copy_bound_to_wrong_map', dict(case, obj=label),
+                         f'{case} {label}: copy{path} ({type(o).__name__}) belongs to the {"source" if cross else "other"} map', obj=kind)
+                break
+        if not cross and not case.get('preserve_ids'):
+            # (in a map parsed with preserve_ids=True the ID managers return requested IDs unchanged: which IDs a copy gets
+            # there is exempt by definition - property C08 - so nothing is demanded)
+            def ids_of(reach):
+                out = set()
+                for _, (_p, o) in reach.items():
+                    if isinstance(o, (Entity, Solid, Side, VisGroup, EntityGroup)):
+                        out.add((type(o).__name__, o.id))
+                    if isinstance(o, Entity) and o['nodeid', '']:
+                        out.add(('node', o['nodeid']))
+                return out
+            reused = ids_of(r_orig) & ids_of(r_copy)
+            if reused:
+                acc.fail('copy_reuses_ids', dict(case, obj=label), f'{case} {label}: the copy carries IDs of its source within one map: {sorted(reused)[:6]}',
+                         obj=kind, what=sorted(reused)[0][0])
     shared = [(r_orig[i][0], type(r_orig[i][1]).__name__) for i in r_orig if i in r_copy]
     if shared:
         acc.fail('copy_shares_object', dict(case, obj=label),
@@ -311,6 +337,18 @@ def check_keep_vis(acc: core.Acc, case: dict, names) -> None:
 def check_map(acc: core.Acc, names) -> None:
     case = {'features': list(names)}
     check_keep_vis(acc, case, names)
+    # the same copies on a map that was parsed with preserve_ids=True (its ID managers hand back requested IDs unchanged)
+    if len(names) <= 1:
+        text = vmfgen.build(names).export(inc_version=False)
+        pcase = dict(case, preserve_ids=True)
+        probe = VMF.parse(Keyvalues.parse(text), preserve_ids=True)
+        labels = [lab for lab, _, _ in copies_of(probe, VMF()) if ':' not in lab and '->' not in lab]
+        for lab in labels:
+            vmf = VMF.parse(Keyvalues.parse(text), preserve_ids=True)
+            for l2, orig, mk in copies_of(vmf, VMF()):
+                if l2 == lab:
+                    check_copy(acc, pcase, lab, orig, mk)
+                    break
     # enumerate labels on one build; every copy is then taken from a fresh build so that mutations never leak
     probe = vmfgen.build(names)
     labels = [lab for lab, _, _ in copies_of(probe, VMF())]
